@@ -7,4 +7,7 @@ open Distill.Gen
 theorem fam3_cells : ∀ c ∈ allCells, cellOk fam3 c.1 c.2 = true := by
   decide +kernel
 
+theorem fam3_bare : ∀ n ∈ allN, bareOk fam3 n = true := by
+  decide +kernel
+
 end Distill.C17
